@@ -297,6 +297,9 @@ func c19Render(p *route.Path, withMeta bool, withLP bool, withAggr bool) string 
 	}
 	sb.WriteString(" unknown=")
 	for _, u := range b.UnknownAttributes {
+		if u.TypeCode == kit.AtAS4Path || u.TypeCode == kit.AtAS4Aggr {
+			continue // RFC 6793 attributes: bio-rd does not interpret them; whether it keeps them is not judged
+		}
 		fmt.Fprintf(&sb, "%d(o%v,p%v):%x,", u.TypeCode, u.Optional, u.Partial, u.Value)
 	}
 	return sb.String()
@@ -442,7 +445,9 @@ func c19GenAttrs(t *rapid.T, s c19Sess, needNH bool) c19Attrs {
 	if nunk > 2 {
 		nunk = 0
 	}
-	types := []uint8{kit.AtOTC, 99, 200}
+	// attributes bio-rd has no use for: OTC (kept as is on sessions without roles), two unassigned codes,
+	// extended communities, and the RFC 6793 attributes an old (2-octet) speaker passes along
+	types := rapid.Permutation([]uint8{kit.AtOTC, 99, 200, 16, kit.AtAS4Path, kit.AtAS4Aggr}).Draw(t, "unktypes")
 	for i := 0; i < nunk; i++ {
 		v := make([]byte, rapid.SampledFrom([]int{0, 1, 4, 7}).Draw(t, "unklen"))
 		for j := range v {
@@ -453,8 +458,15 @@ func c19GenAttrs(t *rapid.T, s c19Sess, needNH bool) c19Attrs {
 			fl |= kit.FlPartial
 		}
 		ty := types[i]
-		if ty == kit.AtOTC {
+		switch ty {
+		case kit.AtOTC:
 			v = []byte{0, 0, 0xfd, 0xe8}
+		case kit.AtAS4Aggr: // 4-octet ASN + address
+			v = []byte{0, 3, 0x0d, 0x40, 192, 0, 2, 9}
+		case kit.AtAS4Path: // one AS_SEQUENCE of two 4-octet ASNs
+			v = []byte{2, 2, 0, 3, 0x0d, 0x40, 0, 0, 0xfd, 0xe9}
+		case 16:
+			v = []byte{0, 2, 0xfd, 0xe8, 0, 0, 0, byte(len(v))}
 		}
 		a.Unknown = append(a.Unknown, kit.WAttr{Flags: fl, Type: ty, Value: v})
 	}
